@@ -35,12 +35,15 @@ StaticReads ==
     (CASE S.kind = "Assign" ->
               Vars(S.rhs) \cup VarsOfSeq(S.sub, 1) \cup LoopBoundVars
        [] S.kind = "AssignFunctionCall" -> VarsOfSeq(S.args, 1) \cup VarsOfKw(S.kw, 1)
+       \* implicit solve: the equations (S.args) are read except for the unknowns (S.sub); the other parameters
+       \* (S.kw, e.g. the initial guess) are ordinary reads even when they mention a name of an unknown
+       [] S.kind = "AssignImplicit" -> (VarsOfSeq(S.args, 1) \ VarsOfSeq(S.sub, 1)) \cup VarsOfKw(S.kw, 1)
        [] S.kind = "YieldState" -> Vars(S.rhs) \cup Vars(S.time)
        [] OTHER -> {})
 
 StaticWrites ==
     CASE S.kind = "Assign" -> {S.lhs[1]}
-      [] S.kind = "AssignFunctionCall" -> SeqSet(S.lhs)
+      [] S.kind \in {"AssignFunctionCall", "AssignImplicit"} -> SeqSet(S.lhs)
       [] OTHER -> {}
 
 DR == SeqSet(Cases[cid].dreads)
